@@ -8,7 +8,8 @@ Decided:
              CheckpointFailed{reason}) and Memvid::append_wal_entry (whose growth arm matches on `reason`): every
              no-space reason the WAL can produce is matched by the growth arm, and the arm matches only reasons the
              WAL produces. Batch mode with auto-checkpoint disabled depends on growth.
-  MPT-C40c   end_batch: flush succeeds before skip_sync is cleared and batch_opts is reset to None;
+  MPT-C40c   end_batch: every Ok exit has passed a successful flush, the skip_sync reset and batch_opts = None (no order
+             among them is demanded: flush syncs unconditionally);
              begin_batch stores the options it was given; commit_skip_indexes_inner and finalize_indexes persist
              TOC + header + sync before Ok (typestate is C03).
 Not decided: equality of frames/timeline/search results between the paths (values)."""
@@ -36,7 +37,7 @@ def str_consts(fn, ops_pos):
 def run(ctx):
     ctx.rule('FLOW-C40a', 'IngestionDelta.inserted_embeddings of every apply_records caller reaches the vector index builder')
     ctx.rule('AGREE-C40b', 'WAL no-space reasons == reasons matched by append_wal_entry\'s growth arm')
-    ctx.rule('MPT-C40c', 'batch protocol: end_batch flush -> clear skip_sync -> batch_opts = None; begin_batch installs the options')
+    ctx.rule('MPT-C40c', 'batch protocol: end_batch Ok => flushed, skip_sync cleared, batch_opts = None; begin_batch installs the options')
     F = ctx.facts()
     callers = [f for f in F.fns.values() if f.calls_to(APPLY)]
     ctx.floor('FLOW-C40a', len(callers), 3, 'callers of apply_records')
@@ -101,13 +102,18 @@ def run(ctx):
         fl = eb.calls_to('EmbeddedWal::flush')
         ss = eb.calls_to('EmbeddedWal::set_skip_sync')
         bo = lib.field_stores(eb, 'Memvid', 'batch_opts')
-        ok = bool(fl and ss and bo) and all(lib.call_success_dominates(eb, fl[0], s.bb) for s in ss) and \
-            all(lib.call_success_dominates(eb, fl[0], b['bb']) for b in bo) and \
+        # every Ok exit has passed the flush (successfully), the skip_sync reset and the batch_opts = None store; their
+        # relative order is immaterial (flush syncs unconditionally), so it is not demanded
+        exits = [ex for ex in eb.ok_exits()]
+        ok = bool(fl and ss and bo and exits) and \
+            all(lib.call_success_dominates(eb, fl[0], ex['bb']) or ex.get('call') is fl[0] for ex in exits) and \
+            all(any(eb.dominates(s.bb, ex['bb']) for s in ss) for ex in exits) and \
+            all(any(eb.dominates(b['bb'], ex['bb']) for b in bo) for ex in exits) and \
             all('Option::None' in lib.slice_back(eb, lib.rv_operands(b['rv']), through_calls=False).aggs or
                 b['rv'].get('variant') == 'None' for b in bo)
         ctx.evaluations += 3
         if ok:
-            ctx.ok('MPT-C40c', eb, 'flush(ok) -> set_skip_sync(false), batch_opts = None', line=fl[0].line)
+            ctx.ok('MPT-C40c', eb, 'every Ok exit has passed flush(ok), set_skip_sync(false) and batch_opts = None', line=fl[0].line)
         else:
             ctx.bad('MPT-C40c', eb, 'end_batch does not flush before leaving batch mode / does not reset batch_opts', detail='end-batch-protocol')
     bb_ = ctx.need('MPT-C40c', 'Memvid::begin_batch')
